@@ -16,7 +16,10 @@ import (
 
 	tpb "github.com/fullstorydev/grpchan/grpchantesting"
 	"github.com/fullstorydev/grpchan/httpgrpc"
+	"google.golang.org/grpc"
 	"google.golang.org/grpc/codes"
+	"google.golang.org/grpc/metadata"
+	"google.golang.org/grpc/peer"
 	"google.golang.org/grpc/status"
 	"google.golang.org/protobuf/proto"
 
@@ -158,9 +161,12 @@ func checkC14(e *core.Env) {
 					ch := &httpgrpc.Channel{BaseURL: mustURL("http://c14.test/"), Transport: rtFunc(func(r *http.Request) (*http.Response, error) {
 						return &http.Response{StatusCode: resp.StatusCode, Status: resp.Status, Header: resp.Header.Clone(), Body: io.NopCloser(bytes.NewReader(body)), Request: r, ProtoMajor: 1, ProtoMinor: 1}, nil
 					})}
-					cerr := ch.Invoke(context.Background(), Unary.Method(), sc.UnaryReq, new(tpb.Message))
-					if got := status.Code(cerr); cerr == nil || got != c {
-						e.Violate(fmt.Sprintf("matrix/client-code/%s/code%d", rend.name, code), fmt.Sprintf("handler returned code %d; renderer %s produced HTTP %d; client saw %v", code, rend.name, resp.StatusCode, cerr), cell)
+					// the caller's code must not depend on which call options capture the reply's metadata
+					for oi, opts := range c14CallOpts() {
+						cerr := ch.Invoke(context.Background(), Unary.Method(), sc.UnaryReq, new(tpb.Message), opts...)
+						if got := status.Code(cerr); cerr == nil || got != c {
+							e.Violate(fmt.Sprintf("matrix/client-code/%s/code%d/%s", rend.name, code, c14OptNames[oi]), fmt.Sprintf("handler returned code %d; renderer %s produced HTTP %d; client (call options: %s) saw %v", code, rend.name, resp.StatusCode, c14OptNames[oi], cerr), cell)
+						}
 					}
 				}
 			}
@@ -183,7 +189,7 @@ func checkC14(e *core.Env) {
 			})}
 			var cerr error
 			if !stream {
-				cerr = ch.Invoke(context.Background(), Unary.Method(), &tpb.Message{}, new(tpb.Message))
+				cerr = ch.Invoke(context.Background(), Unary.Method(), &tpb.Message{}, new(tpb.Message), c14CallOpts()[st%len(c14OptNames)]...)
 			} else {
 				ctx, cancel := context.WithCancel(context.Background())
 				cs, err := ch.NewStream(ctx, ServerStream.StreamDesc(), ServerStream.Method())
@@ -218,8 +224,9 @@ func checkC14(e *core.Env) {
 			h.Set("X-GRPC-Status", fmt.Sprintf("%d:%s", code, msg))
 			return &http.Response{StatusCode: st, Header: h, Body: io.NopCloser(strings.NewReader("")), Request: rq, ProtoMajor: 1, ProtoMinor: 1}, nil
 		})}
-		cerr := ch.Invoke(context.Background(), Unary.Method(), &tpb.Message{}, new(tpb.Message))
-		e.Eval(fmt.Sprintf("prec|%d|%d", st/100, code), true)
+		oi := r.Intn(len(c14OptNames))
+		cerr := ch.Invoke(context.Background(), Unary.Method(), &tpb.Message{}, new(tpb.Message), c14CallOpts()[oi]...)
+		e.Eval(fmt.Sprintf("prec|%d|%d|%s", st/100, code, c14OptNames[oi]), true)
 		if code == 0 {
 			if cerr != nil {
 				e.Violate("precedence/ok-header", fmt.Sprintf("HTTP %d with X-GRPC-Status 0: client saw %v", st, cerr), nil)
@@ -230,6 +237,17 @@ func checkC14(e *core.Env) {
 			e.Violate("precedence/header-code", fmt.Sprintf("HTTP %d with X-GRPC-Status %d:%q: client saw %v", st, code, msg, cerr), nil)
 		}
 	})
+}
+
+var c14OptNames = []string{"none", "header", "trailer", "header+trailer+peer"}
+
+func c14CallOpts() [][]grpc.CallOption {
+	return [][]grpc.CallOption{
+		nil,
+		{grpc.Header(new(metadata.MD))},
+		{grpc.Trailer(new(metadata.MD))},
+		{grpc.Header(new(metadata.MD)), grpc.Trailer(new(metadata.MD)), grpc.Peer(new(peer.Peer))},
+	}
 }
 
 func mustURL(s string) *url.URL {
